@@ -193,21 +193,20 @@ func c17CheckPath(fsys scalibrfs.FS, v overlay.View, p string, depth int, strict
 	local := *tl
 	done := make(chan error, 1)
 	go func() { done <- c17CheckPathQueries(fsys, v, p, depth, strictOpen, strictBoundary, col, &local) }()
-	timer := time.NewTimer(c17HangLimit)
-	defer timer.Stop()
-	select {
-	case err := <-done:
+	if err, ok := ev.Await(done, 20*time.Second, c17HangLimit); ok {
 		*tl = local
 		return err
-	case <-timer.C:
+	}
+	{
 		c17Hung.Store(true)
 		r := overlay.Resolve(v, p, depth)
 		return fmt.Errorf("Stat / Open / ReadDir of %s do not return within %v: opening or stat-ing a path whose final component is a symlink must always terminate (reference: %s after %d hop(s) via %s, budget %d)", p, c17HangLimit, r.Status, r.Hops, strings.Join(r.Trail, " -> "), depth)
 	}
 }
 
-// c17HangLimit bounds the queries of one path (they take microseconds).
-const c17HangLimit = 20 * time.Second
+// c17HangLimit bounds the queries of one path (they take microseconds; the limit is long so that
+// a busy machine is not mistaken for a hang).
+const c17HangLimit = ev.HangLimit
 
 var (
 	// c17Hung is set once a query did not return: its goroutine keeps spinning, so the
